@@ -1195,6 +1195,23 @@ void history_step(State& S) {
       next_phase(S);
     }
   }
+  if (S.cfg.flip_options > 0 && chance(S, 1, (unsigned)S.cfg.flip_options)) {
+    // options that the allocator consults while it runs may be changed at any time with mi_option_set (the ones that are only read when a segment or arena is
+    // created simply take effect for later segments); the per-thread segment target is only touched when forced abandonment is expected anyway
+    vf_cur_what = "mi_option_set";
+    switch (below(S, S.cfg.abandon_ok ? 9 : 8)) {
+      case 0: { static const long v[] = { -1, 0, 1, 10, 100 }; mi_option_set(mi_option_purge_delay, v[below(S, 5)]); break; }
+      case 1: mi_option_set(mi_option_purge_decommits, (long)below(S, 2)); break;
+      case 2: mi_option_set(mi_option_purge_extend_delay, (long)below(S, 3)); break;
+      case 3: mi_option_set(mi_option_arena_purge_mult, 1 + 9 * (long)below(S, 2)); break;
+      case 4: mi_option_set(mi_option_abandoned_page_purge, (long)below(S, 2)); break;
+      case 5: mi_option_set(mi_option_abandoned_reclaim_on_free, (long)below(S, 2)); break;
+      case 6: mi_option_set(mi_option_eager_commit, (long)below(S, 2)); break;
+      case 7: mi_option_set(mi_option_max_segment_reclaim, (long)(below(S, 2) ? 100 : 10)); break;
+      default: mi_option_set(mi_option_target_segments_per_thread, 1 + (long)below(S, 4)); break;       // (never back to 0: blocks may already sit in abandoned segments)
+    }
+    S.n_option_flips++;
+  }
   if (S.cfg.clock_jitter > 0 && chance(S, 1, 6)) { int ms = (int)below(S, (uint64_t)S.cfg.clock_jitter + 1); vf_clock_advance_ms(ms); S.n_clock_ms += (uint64_t)ms; }
   unsigned wa = w.alloc, wf = w.free_;
   if (S.phase <= 2) { wa = wa * 3 / 2; wf = wf / 2; } else if (S.phase >= 5) { wa = wa / 2; wf = wf * 3 / 2; }
@@ -1252,7 +1269,7 @@ void result_body(FILE* f) {
   State& S = *G;
   fprintf(f, "\"profile\":\"%s\",\"variant\":\"%s\",\"seed\":%llu,\"ops\":%llu,\"ops_done\":%llu,\"hash\":\"%016llx\",", S.cfg.profile.c_str(), S.cfg.variant.c_str(),
           (unsigned long long)S.cfg.seed, (unsigned long long)S.cfg.ops, (unsigned long long)S.op_index, (unsigned long long)S.hash);
-  fprintf(f, "\"allocs_through_realloc_of_NULL\":%llu,", (unsigned long long)S.n_alloc_via_realloc_null);
+  fprintf(f, "\"allocs_through_realloc_of_NULL\":%llu,\"option_flips\":%llu,", (unsigned long long)S.n_alloc_via_realloc_null, (unsigned long long)S.n_option_flips);
   fprintf(f, "\"allocs\":%llu,\"alloc_null\":%llu,\"frees\":%llu,\"reallocs\":%llu,\"realloc_inplace\":%llu,\"realloc_moved\":%llu,\"realloc_null\":%llu,\"realloc_mustfail\":%llu,\"expand_ok\":%llu,\"expand_null\":%llu,",
           (unsigned long long)S.n_alloc, (unsigned long long)S.n_alloc_null, (unsigned long long)S.n_free, (unsigned long long)S.n_realloc, (unsigned long long)S.n_realloc_inplace,
           (unsigned long long)S.n_realloc_moved, (unsigned long long)S.n_realloc_null, (unsigned long long)S.n_realloc_mustfail, (unsigned long long)S.n_expand_ok, (unsigned long long)S.n_expand_null);
@@ -1328,6 +1345,7 @@ int main(int argc, char** argv) {
   S.cfg.secure = vf_getarg_ll(argc, argv, "--secure", 0) != 0;
   S.cfg.allow_null = vf_getarg_ll(argc, argv, "--allow-null", 0) != 0;
   S.cfg.clock_jitter = (int)vf_getarg_ll(argc, argv, "--clock-jitter", 0);
+  S.cfg.flip_options = (int)vf_getarg_ll(argc, argv, "--flip-options", 0);
   S.cfg.purge_cb = vf_getarg_ll(argc, argv, "--purge-cb", 0) != 0;
   S.cfg.threads = vf_getarg_ll(argc, argv, "--threads", 0) != 0;
   S.cfg.size_cap = (uint64_t)vf_getarg_ll(argc, argv, "--size-cap", 0);
